@@ -2043,7 +2043,7 @@ func (s *Source) compactAndUnNullVariables(input []byte) []byte {
 	if !bytes.ContainsAny(variables, " \t\n\r") {
 		buf := bytes.NewBuffer(make([]byte, 0, len(variables)))
 		if err := json.Compact(buf, variables); err != nil {
-			return variables
+			return input
 		}
 		variables = buf.Bytes()
 	}
